@@ -174,6 +174,10 @@ Definition monitor_op (p : prop_id) (u : universe) (earlier : list event) (o : o
   match o with
   | OpCall f d opts => monitor_call p u earlier f d opts ob
   | OpConvert t opts =>
+      (* target type `error` (id 12): the synthesised func(error) error returns its
+         argument as the error, so a resolvable conversion fails by construction;
+         the call-level monitors do not apply, C10's twin comparison decides it *)
+      if t =? 12 then 0 else
       match p with
       | P01 | P02 | P04 | P05 | P06 | P13 => monitor_call p u earlier (identity_fn t) [] opts
                                   (mkOpObs (oo_obs ob) (oo_events ob) (oo_tape ob))
